@@ -66,6 +66,16 @@ CONTRACTS.update({
     ensures=[('a-set-written-without-a-name-is-the-one-registered-as-unnamed', "implies(result.set_name is None or len(result.set_name) == 0, result is old(self[ZoneSet][None]))"),
              ('a-set-written-under-a-registered-name-is-that-registered-set', "implies(result.set_name == 'N2', result is old(self[ZoneSet]['N2']))"),
              ('registered-sets-kept', "self[ZoneSet][None] is old(self[ZoneSet][None]) and self[ZoneSet]['N2'] is old(self[ZoneSet]['N2'])")]),
+ # the same when the type has no unnamed set yet: a set that will be written WITHOUT a name must be registered as THE unnamed set
+ # (key None), otherwise the next request for the unnamed set creates a second one
+ 'EFLRSetsDict.get_or_make_set[any-name,no-unnamed-set-yet]': dict(
+    target='EFLRSetsDict.get_or_make_set', props=['C09'],
+    self_fields={'__store__': 'clsdict{ZoneSet:namedict{N2:obj:ZSetT},AxisSet:namedict{}}'},
+    params={'eflr_set_type': 'cls:ZoneSet', 'set_name': 'str?'}, returns='obj:ZSetT',
+    requires=["self[ZoneSet]['N2'].set_name == 'N2'"],
+    ensures=[('a-set-written-without-a-name-is-registered-as-the-unnamed-set',
+              "implies(result.set_name is None or len(result.set_name) == 0, self[ZoneSet].get(None) is result)"),
+             ('a-set-written-under-a-registered-name-is-that-registered-set', "implies(result.set_name == 'N2', result is old(self[ZoneSet]['N2']))")]),
  'EFLRSetsDict.try_add_set': dict(
     props=['C09', 'C18'], self_fields=ZREG['fields'], params={'eflr_set': 'obj:ZSetC'}, returns='bool',
     ensures=[('one-set-per-class-and-name', "result == (eflr_set.set_name is not None and eflr_set.set_name == 'N3')"),
